@@ -10,7 +10,13 @@
 //!   case (datagram, or a connection = reliable transport, in random segments; an in-dialog case may run its whole call
 //!   over the connection), what the application does with an INVITE / re-INVITE (accept; accept both; reject at once
 //!   with a 3xx-6xx; ring then reject through `Acceptor`; not interested = the endpoint's own 481), and what the peer
-//!   does with a 3xx-6xx to its INVITE (ACK after 50 ms / 700 ms / 5 s / 33 s, or never). The structured inputs include
+//!   does with a 3xx-6xx to its INVITE (ACK after 50 ms / 700 ms / 5 s / 33 s, or never), how long a `send` of the
+//!   datagram transport stays pending (0 / 1 / 7 / 20 / 60 ms of virtual time: other tasks run while a response is being
+//!   written), and whether the peer sends the very same datagram again (retransmission / duplicate / replay): 0..3
+//!   more copies, each at a timer edge of the transaction the input may have started (same instant, T1 and its
+//!   doublings, T4, 63..65*T1, 64*T1 = end of the window in which a completed server transaction absorbs
+//!   retransmissions, 64*T1+T4) displaced by -1 / 0 / +1 ms or by -70..+130 ms (a few send durations, so that a copy
+//!   is handled ACROSS the edge: it arrives before, its answer is on its way when the timer fires). The structured inputs include
 //!   SIP URIs in rare grammar-derived forms (RFC 3261 25.1: user, user:password, %XX escapes in every component that
 //!   admits them, IPv6 hosts, ports, uri-parameters, headers) in the request line, From / To / Contact / Route /
 //!   Record-Route, escapes and quoted strings in header parameters, and a CANCEL of the pending INVITE. The world then
@@ -48,6 +54,7 @@ use sip_ua::dialog::{Dialog, DialogLayer};
 use sip_ua::invite::acceptor::Acceptor;
 use sip_ua::invite::session::Event as SessionEvent;
 use sip_ua::invite::InviteLayer;
+use std::collections::BTreeMap;
 use std::net::SocketAddr;
 
 #[derive(Serialize, Deserialize, Clone, Debug, Hash)]
@@ -80,8 +87,24 @@ pub struct Case {
     /// delivered (None = never: a hostile or vanished peer)
     #[serde(default)]
     pub peer_ack_ms: Option<u64>,
+    /// every `send` of the datagram transport stays pending this many ms of virtual time after the bytes went out
+    /// (a socket whose buffer is full, a slow interface); 0 = instantaneous, the only behaviour before this field existed
+    #[serde(default)]
+    pub send_ms: u64,
+    /// datagram delivery only: the peer sends the very same datagram again this many ms after the first copy (a
+    /// retransmission, a packet duplicated by the network, an attacker repeating itself); 0 = a second copy at the same
+    /// instant, before the first one was looked at
+    #[serde(default)]
+    pub retransmit_ms: Vec<u64>,
     pub rng: u8,
 }
+
+/// instants (ms after the input) at which the timers of the transaction the input may have started change its state
+/// (RFC 3261 17.2: T1 and its doublings up to T2 = timer G / E, T4, 64*T1 = timers H / J / the absorbing window of a
+/// completed server transaction, 64*T1 + T4); the peer's retransmissions are generated around them
+const RETRANSMIT_EDGES: &[u64] = &[0, 0, T1, 2 * T1, 4 * T1, T2 + T1, T4, 16 * T1, 32 * T1, 63 * T1, 64 * T1, 64 * T1, 64 * T1, 64 * T1, 65 * T1, 64 * T1 + T4];
+/// send latencies of the datagram transport
+const SEND_MS: &[u64] = &[1, 7, 20, 20, 60];
 
 // ---------------------------------------------------------------------------------------------
 // structured hostile messages
@@ -588,12 +611,27 @@ pub fn strategy() -> BoxedStrategy<Case> {
                     prop_oneof![4 => Just(None), 2 => Just(Some(50u64)), 2 => Just(Some(700u64)), 1 => Just(Some(5_000u64)), 1 => Just(Some(33_000u64))],
                     // an in-dialog case keeps its stream delivery (the whole call then runs over the connection)
                     prop::bool::weighted(0.6),
+                    // the datagram transport: half of the cases instantaneous sends, else a send latency
+                    prop_oneof![1 => Just(0u64), 1 => any::<u16>().prop_map(|s| SEND_MS[pick_idx(s, SEND_MS.len())])],
+                    // the peer's retransmissions / duplicates of the input: a timer edge of the transaction, and a
+                    // distance to it = 1 ms before / after, or anywhere within a few send durations around it
+                    prop_oneof![
+                        1 => Just(vec![]),
+                        1 => prop::collection::vec((any::<u16>(), prop_oneof![1 => Just(-1i64), 1 => Just(1i64), 1 => Just(0i64), 6 => -70i64..=130]), 1..4),
+                    ],
                 ),
             )
         })
-        .prop_map(|((bytes, labels), stream_cuts, in_dialog, early, rng, long_life, (app, peer_ack_ms, dialog_over_stream))| {
+        .prop_map(|((bytes, labels), stream_cuts, in_dialog, early, rng, long_life, (app, peer_ack_ms, dialog_over_stream, send_ms, retransmits))| {
             let stream_cuts = if in_dialog && !dialog_over_stream { None } else { stream_cuts };
-            Case { bytes, labels, stream_cuts, in_dialog, early: early && in_dialog, before_ack: in_dialog && !early && rng % 2 == 1, long_life: long_life && in_dialog, app, peer_ack_ms, rng }
+            let mut retransmit_ms: Vec<u64> = if stream_cuts.is_some() {
+                // a connection delivers every byte once
+                vec![]
+            } else {
+                retransmits.into_iter().map(|(e, d)| (RETRANSMIT_EDGES[pick_idx(e, RETRANSMIT_EDGES.len())] as i64 + d).max(0) as u64).collect()
+            };
+            retransmit_ms.sort();
+            Case { bytes, labels, stream_cuts, in_dialog, early: early && in_dialog, before_ack: in_dialog && !early && rng % 2 == 1, long_life: long_life && in_dialog, app, peer_ack_ms, send_ms, retransmit_ms, rng }
         })
         .boxed()
 }
@@ -916,6 +954,27 @@ fn stage<R>(name: &'static str, out: &mut CaseOut, f: impl FnOnce() -> R) -> Opt
     }
 }
 
+/// Panics of the tasks of a world (the receive path proper: transaction, dialog and session tasks). A panic raised in
+/// ezk's own code keeps the engine's signature `panic/<file>:<line>`. A panic raised below ezk (std or a dependency,
+/// e.g. `Duration - Duration`, `Instant + Duration`, a slice index inside `bytes`) is located in a line of the
+/// toolchain's / the dependency's sources that says nothing about what broke and changes with its version: its
+/// signature names the crate and the constant part of the panic message instead (text up to the first ':', no digits).
+fn world_panics(out: &mut CaseOut) {
+    for p in crate::engine::panic_hook::take() {
+        let first = p.location.split('/').next().unwrap_or("");
+        let registry_crate = first.rsplit_once('-').filter(|(_, v)| v.starts_with(|c: char| c.is_ascii_digit())).map(|(n, _)| n);
+        let below_ezk = registry_crate.or(if first == "library" { Some("std") } else { None });
+        match below_ezk {
+            Some(krate) => {
+                let text = p.message.split(':').next().unwrap_or("");
+                let words: Vec<&str> = text.split(|c: char| !c.is_ascii_alphabetic()).filter(|w| !w.is_empty()).take(8).collect();
+                out.fail(format!("c02.panic/receive-path-task-panics-inside-{krate}({})", words.join("-")), format!("a task of the endpoint panicked: {} at {}", p.message, p.location));
+            }
+            None => out.fail(format!("panic/{}", p.location), format!("panic: {} at {}", p.message, p.location)),
+        }
+    }
+}
+
 /// every label the generators of `hostile` put into a case
 const HOSTILE_LABELS: &[&str] = &[
     "content-length", "content-length-duplicate-compact", "cseq-number", "cseq-shape", "session-expires", "min-se", "expires", "max-forwards", "rseq-rack", "via", "via-missing",
@@ -978,7 +1037,7 @@ pub fn check(case: &Case, out: &mut CaseOut) {
     }
     if reached_headers && !case.labels.iter().all(|l| l.starts_with("random")) {
         // distinct by the input and the scenario it is delivered in
-        out.nontrivial(&(&case.bytes, case.stream_cuts.is_some(), case.in_dialog, case.early, case.before_ack, case.app, case.peer_ack_ms));
+        out.nontrivial(&(&case.bytes, case.stream_cuts.is_some(), case.in_dialog, case.early, case.before_ack, case.app, case.peer_ack_ms, case.send_ms, &case.retransmit_ms));
         out.class("reached-header-decoding");
     }
 
@@ -992,6 +1051,27 @@ pub fn check(case: &Case, out: &mut CaseOut) {
     let c = case.clone();
     let (on_invite, on_reinvite, app_class) = app_policy(case.app);
     out.class(app_class);
+    if case.stream_cuts.is_none() {
+        out.class(match case.send_ms {
+            0 => "datagram-send:instantaneous",
+            1..=9 => "datagram-send:takes-1..9-ms",
+            _ => "datagram-send:takes-20..60-ms",
+        });
+        if case.retransmit_ms.is_empty() {
+            out.class("input-sent-once");
+        }
+        for ms in &case.retransmit_ms {
+            out.class(match *ms {
+                0 => "input-sent-again:at-the-same-instant",
+                ms if ms + 200 < 64 * T1 => "input-sent-again:within-64*T1",
+                ms if ms <= 64 * T1 + 200 => "input-sent-again:around-64*T1(+-200-ms)",
+                _ => "input-sent-again:after-64*T1",
+            });
+            if case.send_ms > 0 && *ms > 64 * T1 && *ms < 64 * T1 + case.send_ms {
+                out.class("input-sent-again:within-one-send-duration-after-64*T1");
+            }
+        }
+    }
     out.class(match case.peer_ack_ms {
         None => "peer-never-ACKs-a-failure-response",
         Some(ms) if ms < T1 => "peer-ACKs-a-failure-response-within-T1",
@@ -999,7 +1079,7 @@ pub fn check(case: &Case, out: &mut CaseOut) {
     });
     let (world, guard) = run_world_guarded(case.rng as u64, |clock| async move {
         let log = WireLog::new(clock);
-        let (tp, _) = mock_datagram(&log, "UDP", false, false, "10.0.0.1:5060");
+        let (tp, _) = mock_datagram_slow(&log, "UDP", false, false, "10.0.0.1:5060", c.send_ms);
         let (lb, dialer) = mock_listener::<false>(clock, &log, "10.0.0.1:5060");
         let mut b = offline_builder();
         b.add_unmanaged_transport(tp.clone());
@@ -1022,6 +1102,7 @@ pub fn check(case: &Case, out: &mut CaseOut) {
 
         let mut bytes = c.bytes.clone();
         let mut late_ack: Option<Vec<u8>> = None;
+        let mut setup_answered = false;
         if c.in_dialog {
             // a plain call first: INVITE (no 100rel), 200 from the application, ACK
             let setup = request_text(
@@ -1030,7 +1111,18 @@ pub fn check(case: &Case, out: &mut CaseOut) {
                 &["Contact: <sip:mallory@192.0.2.9>".into(), if c.early { "Supported: timer, 100rel".into() } else { "Supported: timer".into() }], b"");
             deliver(&endpoint, &tp, src, &mut conn, &setup).await;
             let want = if c.early { 183 } else { 200 };
-            let tag = log.parsed().iter().filter_map(|(_, m)| m.as_ref()).find(|m| m.status() == Some(want)).and_then(|m| m.to_tag());
+            let find_tag = || log.parsed().iter().filter_map(|(_, m)| m.as_ref()).find(|m| m.status() == Some(want)).and_then(|m| m.to_tag());
+            let mut tag = find_tag();
+            // a transport with send latency: the application's responses go out one send duration after the other
+            for _ in 0..8 {
+                if tag.is_some() || c.send_ms == 0 {
+                    break;
+                }
+                clock.advance(c.send_ms).await;
+                settle().await;
+                tag = find_tag();
+            }
+            setup_answered = tag.is_some();
             if let (Some(tag), true) = (&tag, c.early) {
                 // the peer knows RSeq from the 183: a PRACK template "RAck: 1 1 INVITE" gets the real numbers half of the time
                 let rseq = log.parsed().iter().filter_map(|(_, m)| m.as_ref()).find(|m| m.status() == Some(183)).and_then(|m| m.header("rseq").map(str::to_string));
@@ -1079,26 +1171,37 @@ pub fn check(case: &Case, out: &mut CaseOut) {
             }
             _ => {
                 inject(&endpoint, &tp, src, &bytes);
+                // copies that arrive at the same instant: handed over before the first one was looked at
+                for _ in c.retransmit_ms.iter().filter(|ms| **ms == 0) {
+                    inject(&endpoint, &tp, src, &bytes);
+                }
                 settle().await;
             }
         }
         // what the peer does afterwards: the ACK of the set-up call when that is still owed (700 ms later), the ACKs
-        // for the 3xx-6xx final responses it got to its INVITEs (`peer_ack_ms`, or never)
+        // for the 3xx-6xx final responses it got to its INVITEs (`peer_ack_ms`, or never), the same datagram again
+        // (`retransmit_ms`)
         let t0 = clock.now_ms();
-        let mut timeline: Vec<(u64, bool)> = vec![];
+        let mut timeline: Vec<(u64, u8)> = vec![];
         let had_late_ack = late_ack.is_some();
         if had_late_ack {
-            timeline.push((700, true));
+            timeline.push((700, 0));
         }
         if let Some(ms) = c.peer_ack_ms {
-            timeline.push((ms, false));
+            timeline.push((ms, 1));
+        }
+        if conn.is_none() {
+            timeline.extend(c.retransmit_ms.iter().filter(|ms| **ms > 0).map(|ms| (*ms, 2)));
         }
         timeline.sort();
         let mut acked = Default::default();
         let mut failure_acks_sent = 0u32;
-        for (at, setup_ack) in timeline {
+        for (at, what) in timeline {
             clock.until(t0 + at).await;
-            if setup_ack {
+            if what == 2 {
+                inject(&endpoint, &tp, src, &bytes);
+                settle().await;
+            } else if what == 0 {
                 if let Some(ack) = late_ack.take() {
                     deliver(&endpoint, &tp, src, &mut conn, &ack).await;
                 }
@@ -1146,10 +1249,26 @@ pub fn check(case: &Case, out: &mut CaseOut) {
                 }
             }
         }
+        // responses of ezk that carry the top-Via branch of the input, over the datagram transport: how often the
+        // same one (status, CSeq) went out, and how long after the first time
+        let mut answers_to_input = (0u32, 0u64);
+        if let Some(branch) = WireMsg::parse(&bytes).filter(|m| m.is_request()).and_then(|m| m.via_branch()) {
+            let mut first: BTreeMap<(u16, String), (u32, u64)> = BTreeMap::new();
+            for (s, m) in &wire {
+                let Some(m) = m else { continue };
+                if s.tp < 0x1_0000 && !m.is_request() && m.via_branch().as_deref() == Some(branch.as_str()) {
+                    let e = first.entry((m.status().unwrap_or(0), m.header("cseq").unwrap_or("").to_string())).or_insert((0, s.t_ms));
+                    e.0 += 1;
+                    answers_to_input.0 = answers_to_input.0.max(e.0);
+                    answers_to_input.1 = answers_to_input.1.max(s.t_ms - e.1);
+                }
+            }
+        }
         // the peer's connection stays open until here
         drop(conn);
-        World { answered_dgram: answered("z9hG4bKprobe1"), answered_stream: answered("z9hG4bKprobe2"), wire_len: wire.len(), failures, failure_acks_sent }
+        World { answered_dgram: answered("z9hG4bKprobe1"), answered_stream: answered("z9hG4bKprobe2"), wire_len: wire.len(), failures, failure_acks_sent, answers_to_input, setup_answered }
     });
+    world_panics(out);
     guard_classes(&guard, out);
     if let Some(t) = guard.tripped_at_ms {
         out.fail(
@@ -1171,6 +1290,19 @@ pub fn check(case: &Case, out: &mut CaseOut) {
     if world.failure_acks_sent > 0 {
         out.class("peer-ACKed-a-failure-response");
     }
+    if case.in_dialog {
+        out.class(match (world.setup_answered, case.stream_cuts.is_none() && case.send_ms > 0) {
+            (true, true) => "set-up-call-answered(datagram transport with send latency)",
+            (true, false) => "set-up-call-answered",
+            (false, _) => "set-up-call-not-answered",
+        });
+    }
+    if world.answers_to_input.0 > 1 {
+        out.class("a-response-to-the-input-went-out-more-than-once");
+        if !case.retransmit_ms.is_empty() && world.answers_to_input.1 > 64 * T1 {
+            out.class("a-response-to-the-input-went-out-again-later-than-64*T1-after-the-first-time");
+        }
+    }
     if !world.answered_dgram {
         out.fail("c02.liveness/datagram-transport-silent", "a valid OPTIONS sent after the hostile input over the datagram transport got no response");
     }
@@ -1187,6 +1319,11 @@ struct World {
     /// 3xx-6xx final responses to an INVITE over (the datagram transport, a connection)
     failures: (u32, u32),
     failure_acks_sent: u32,
+    /// (how often the most repeated response to the input went out over the datagram transport, ms between the first
+    /// and the last time one response went out)
+    answers_to_input: (u32, u64),
+    /// in-dialog modes: the application's 200 (183 for `early`) to the INVITE that sets up the call was seen
+    setup_answered: bool,
 }
 
 // ---------------------------------------------------------------------------------------------
@@ -1891,6 +2028,7 @@ fn check_life(case: &LifeCase, out: &mut CaseOut) {
     }
     // the oracle: the engine's panic capture (any task of the world), the INVITE went out, the endpoint is still alive
     let (obs, guard) = run_life(case);
+    world_panics(out);
     guard_classes(&guard, out);
     if let Some(t) = guard.tripped_at_ms {
         out.fail(
@@ -1970,15 +2108,17 @@ pub fn property() -> Property {
     Property {
         fuzz: vec![FuzzStage { target: "sip_datagram", runs: 2_000_000, max_len: 6000, seed_corpus: seed_corpus_datagram }],
         id: "C02",
-        rule: "hostile: a case = one hostile input: (60%) a valid INVITE / OPTIONS / in-dialog BYE, re-INVITE, PRACK, ACK, UPDATE / 200 response / REGISTER / CANCEL of the pending INVITE with 1..3 mutations from a 30-entry catalogue (Content-Length incl. usize::MAX, duplicate compact l, CSeq / Session-Expires / Min-SE / Expires / Max-Forwards / RSeq / RAck over {0,1,9,10,11,u32::MAX-1,u32::MAX,u32::MAX+1,2^64-1,2^64,-1,...}, hostile Via / From / To / Contact / auth values, missing base headers, 20 Vias, invalid UTF-8, broken start lines, obs-fold, 4096+-2 byte heads, broken head terminators, body length mismatch, long malformed values with a multi-byte character at any offset, the branch of a live transaction, a SIP URI built component-wise from the RFC 3261 25.1 grammar {scheme spelling} x {no userinfo, user, user:password; plain / every allowed character class / %XX decoding to ASCII, to a reserved character, to valid or invalid UTF-8, to NUL / just outside the grammar} x {IPv4, host name, IPv6 reference} x {port} x {uri-parameters, with escapes} x {headers, with escapes} placed in the request line / From / To / Contact / Route / Record-Route as name-addr, with display name or bare, escapes / quoted strings / quoted pairs in display names and header parameters of From, To, Via, Call-ID, Contact, Content-Type), optional LF-only line ends, leading CRLFs, truncation; (20%) byte-level mutations of valid messages; (20%) random bytes / ASCII / SIP-token soup. Delivered as one datagram or over a stream connection (reliable transport) in random segments, outside a dialog or (40%) inside the dialog of a call set up before (established / before the ACK / INVITE pending; 21% of these run the whole call over the connection). Application policy: (50%) accepts every INVITE (180, reliable 183, 200, session driven for 4 events, re-INVITE let go), else one of: also answers a re-INVITE 200 / rejects at once with 486, 603 or 302 through the INVITE server transaction (re-INVITE: 488, 603, 500) / 180 then 480 through Acceptor::respond_failure / does not take the INVITE (the endpoint answers 481). Peer: ACKs every 3xx-6xx final response to its INVITE 50 ms / 700 ms / 5 s / 33 s after the input, or (40%) never. Checked: datagram parser, every typed header decoder on every header value, the stream decoder (each stage isolated so that a panic is attributed to it), then the whole receive path of the endpoint for 40 s of virtual time (in-dialog, 20%: 1900 s, past the expiry of the call's 1800 s session timer) under the spin guard (no virtual instant may see more than 5000 task polls; sound runs stay below 100), and finally a valid OPTIONS over the datagram transport and over a fresh connection must each be answered. Non-trivial = the input reached header decoding (start line parsed) and is not pure noise; distinct by bytes + delivery scenario (transport, dialog state, application policy, peer ACK). uac_hostile_responses: 1..5 responses (100/180/183/200/486, forks, Contact, Record-Route, RSeq) carrying 0..3 lines of a hostile-header list to an INVITE sent through Initiator; non-trivial = at least one hostile line; distinct by case. uac_session_life: a response history by shape (2xx first / 18x then 2xx of the same fork / other fork / two 2xx / free) whose 2xx carry a Session-Expires line = name spelling x delta {0,1..22,30..91,1800,u32::MAX-10..u32::MAX,not a u32} x parameters {none, refresher=uac, =uas, empty/unknown value, other letter case, other parameters only, twice/among others, odd syntax}, with/without Require: timer, Supported, Contact, hostile extras; Initiator configuration (6); per in-dialog request of ezk a peer reaction (silence or code in {100,180,200,202,404,408,481,491,500,603} after 1 ms..33 s with hostile lines); 0..2 peer requests inside the dialog (BYE/INVITE/UPDATE/OPTIONS/INFO/ACK/PRACK/CANCEL, CSeq {0,1,2,u32::MAX-1,u32::MAX,u32::MAX+1}, hostile lines, ACK or not); an application that drives every Session it is handed (default handling of RefreshNeeded / Bye, 200 or nothing for a re-INVITE, 1..6 events, optional hang-up via Session::terminate after 0.4..95 s); 0.9 s..1900 s of virtual time under the spin guard; then a valid OPTIONS must be answered. Non-trivial = the application got a session and something happened in it afterwards (timer fired, request of ezk or of the peer inside the dialog, hang-up, Terminated, drive error); distinct by case.",
+        rule: "hostile: a case = one hostile input: (60%) a valid INVITE / OPTIONS / in-dialog BYE, re-INVITE, PRACK, ACK, UPDATE / 200 response / REGISTER / CANCEL of the pending INVITE with 1..3 mutations from a 30-entry catalogue (Content-Length incl. usize::MAX, duplicate compact l, CSeq / Session-Expires / Min-SE / Expires / Max-Forwards / RSeq / RAck over {0,1,9,10,11,u32::MAX-1,u32::MAX,u32::MAX+1,2^64-1,2^64,-1,...}, hostile Via / From / To / Contact / auth values, missing base headers, 20 Vias, invalid UTF-8, broken start lines, obs-fold, 4096+-2 byte heads, broken head terminators, body length mismatch, long malformed values with a multi-byte character at any offset, the branch of a live transaction, a SIP URI built component-wise from the RFC 3261 25.1 grammar {scheme spelling} x {no userinfo, user, user:password; plain / every allowed character class / %XX decoding to ASCII, to a reserved character, to valid or invalid UTF-8, to NUL / just outside the grammar} x {IPv4, host name, IPv6 reference} x {port} x {uri-parameters, with escapes} x {headers, with escapes} placed in the request line / From / To / Contact / Route / Record-Route as name-addr, with display name or bare, escapes / quoted strings / quoted pairs in display names and header parameters of From, To, Via, Call-ID, Contact, Content-Type), optional LF-only line ends, leading CRLFs, truncation; (20%) byte-level mutations of valid messages; (20%) random bytes / ASCII / SIP-token soup. Delivered as one datagram or over a stream connection (reliable transport) in random segments, outside a dialog or (40%) inside the dialog of a call set up before (established / before the ACK / INVITE pending; 21% of these run the whole call over the connection). Application policy: (50%) accepts every INVITE (180, reliable 183, 200, session driven for 4 events, re-INVITE let go), else one of: also answers a re-INVITE 200 / rejects at once with 486, 603 or 302 through the INVITE server transaction (re-INVITE: 488, 603, 500) / 180 then 480 through Acceptor::respond_failure / does not take the INVITE (the endpoint answers 481). Peer: ACKs every 3xx-6xx final response to its INVITE 50 ms / 700 ms / 5 s / 33 s after the input, or (40%) never. Datagram transport: (50%) instantaneous sends, else every send stays pending 1 / 7 / 20 / 60 ms of virtual time. Datagram delivery: (50%) the peer sends the identical datagram 1..3 more times, each at {same instant, T1, 2*T1, 4*T1, T2+T1, T4, 16*T1, 32*T1, 63*T1, 64*T1 (weight 4), 65*T1, 64*T1+T4} after the first copy displaced by -1 / 0 / +1 ms or uniformly -70..+130 ms (copies at offset 0 are handed over before the first one was looked at). Checked: datagram parser, every typed header decoder on every header value, the stream decoder (each stage isolated so that a panic is attributed to it), then the whole receive path of the endpoint for 40 s of virtual time (in-dialog, 20%: 1900 s, past the expiry of the call's 1800 s session timer) under the spin guard (no virtual instant may see more than 5000 task polls; sound runs stay below 100), and finally a valid OPTIONS over the datagram transport and over a fresh connection must each be answered. Non-trivial = the input reached header decoding (start line parsed) and is not pure noise; distinct by bytes + delivery scenario (transport, dialog state, application policy, peer ACK, send latency, retransmission times). uac_hostile_responses: 1..5 responses (100/180/183/200/486, forks, Contact, Record-Route, RSeq) carrying 0..3 lines of a hostile-header list to an INVITE sent through Initiator; non-trivial = at least one hostile line; distinct by case. uac_session_life: a response history by shape (2xx first / 18x then 2xx of the same fork / other fork / two 2xx / free) whose 2xx carry a Session-Expires line = name spelling x delta {0,1..22,30..91,1800,u32::MAX-10..u32::MAX,not a u32} x parameters {none, refresher=uac, =uas, empty/unknown value, other letter case, other parameters only, twice/among others, odd syntax}, with/without Require: timer, Supported, Contact, hostile extras; Initiator configuration (6); per in-dialog request of ezk a peer reaction (silence or code in {100,180,200,202,404,408,481,491,500,603} after 1 ms..33 s with hostile lines); 0..2 peer requests inside the dialog (BYE/INVITE/UPDATE/OPTIONS/INFO/ACK/PRACK/CANCEL, CSeq {0,1,2,u32::MAX-1,u32::MAX,u32::MAX+1}, hostile lines, ACK or not); an application that drives every Session it is handed (default handling of RefreshNeeded / Bye, 200 or nothing for a re-INVITE, 1..6 events, optional hang-up via Session::terminate after 0.4..95 s); 0.9 s..1900 s of virtual time under the spin guard; then a valid OPTIONS must be answered. Non-trivial = the application got a session and something happened in it afterwards (timer fired, request of ezk or of the peer inside the dialog, hang-up, Terminated, drive error); distinct by case.",
         assumptions: vec![
-            "any panic on the case's thread (including spawned tasks of the current-thread runtime, e.g. the task driving a session) is a violation; a panic raised below ezk (dependency / std) inside one of the pure parsing stages is reported as c02.panic/<stage>-panics-inside-<crate> because its file:line (and for pointer assertions even which assertion fires) is not a function of the case",
+            "any panic on the case's thread (including spawned tasks of the current-thread runtime, e.g. the task driving a session) is a violation; a panic raised below ezk (dependency / std) inside one of the pure parsing stages is reported as c02.panic/<stage>-panics-inside-<crate> because its file:line (and for pointer assertions even which assertion fires) is not a function of the case; one raised below ezk inside a task of the world (hostile, uac_session_life) as c02.panic/receive-path-task-panics-inside-<crate>(<constant part of the message>)",
             "loop forever: a task that never again waits for anything in the future keeps the single-threaded runtime busy at one virtual instant; the spin guard (runtime hook counting task polls per virtual instant, limit 5000, a pure function of the case) reports it as c02.hang/...; a loop that never yields to the runtime at all cannot be interrupted from inside the thread and is left to the engine's wall-clock watchdog (inconclusive)",
             "that a malformed message is answered is not asserted, only that valid traffic after it is",
+            "retransmissions / duplicates of the input and the send latency of the datagram transport only widen the set of histories: nothing is asserted about whether, when or how often a copy is answered (C05-C07), only that no task panics or spins and that valid traffic afterwards is answered; how often a response to the input went out and whether one went out again later than 64*T1 after the first time is reported as classes",
+            "two copies of one datagram are handed to Endpoint::receive one after the other on the case's single thread (offset 0 = before any task ran in between); truly parallel dispatch on two worker threads of a multi_thread runtime (a race between lookup and registration inside one synchronous section) has no counterpart in the single-threaded world and is not covered",
             "uac_session_life asserts nothing about WHICH event the application gets, what ezk sends or when (C13, C17); the application calls only the public API in the documented order (keeps the Initiator alive, stops polling an Early after its session / error, never drives a session after Terminated / an error)",
             "hostile values inside live dialog / INVITE / REGISTER scenarios are additionally covered by the scenario sub-checks of C10, C12, C13, C17 (u32::MAX CSeq, hostile Session-Expires / Min-SE / Expires, retransmitted 2xx, missing To-tag)",
         ],
-        explanation: "sampled; the mutation catalogue coverage, URI component shapes, application policy, peer ACK behaviour, failure responses per transport kind and the busiest virtual instant (hostile) and the Session-Expires delta / parameter classes, history shapes and what actually happened in the session (uac_session_life) are reported per entry in the class histogram",
+        explanation: "sampled; the mutation catalogue coverage, URI component shapes, application policy, peer ACK behaviour, send latency of the datagram transport, where the peer's retransmissions fall (same instant / within / around / after 64*T1, within one send duration after 64*T1) and whether a response went out again, failure responses per transport kind and the busiest virtual instant (hostile) and the Session-Expires delta / parameter classes, history shapes and what actually happened in the session (uac_session_life) are reported per entry in the class histogram",
         subs: vec![
             prop_sub("hostile", strategy, 3000, 60000, check),
             prop_sub("uac_hostile_responses", uac_strategy, 1500, 30000, check_uac),
